@@ -184,7 +184,9 @@ def run(ctx):
                 continue
             if adj_from_pairs(len(recs), o) != adj:
                 corr_bad.append((kind, recs[:8], adj[:8], o[:80]))
-            if adj_from_pairs(len(recs), om) != adj:
+            # the exact model may traverse boxes in a different order when a coordinate sits on a box boundary in floating
+            # point (x/2.51 rounds across an integer): compare the bond *sets* here; list order is compared with the Float model
+            if [sorted(x) for x in adj_from_pairs(len(recs), om)] != [sorted(x) for x in adj]:
                 # exact vs float: legitimate only when some pair sits exactly on a threshold
                 if exact_tie(recs):
                     skipped += 1
@@ -193,7 +195,7 @@ def run(ctx):
         ctx.coverage["near_threshold_skipped"] = skipped
         ctx.oblige("correspondence: ordered bond lists of the Float model = real BondMaker (%d arrays)" % len(cases), not corr_bad,
                    "%d disagreements, first %r" % (len(corr_bad), corr_bad[:1]))
-        ctx.oblige("correspondence: ordered bond lists of the exact (Int milli-A) model = real BondMaker (%d arrays, %d tie cases skipped)" % (len(cases), skipped),
+        ctx.oblige("correspondence: bond sets of the exact (Int milli-A) model = real BondMaker (%d arrays, %d tie cases skipped)" % (len(cases), skipped),
                    not corr_badm, "%d disagreements, first %r" % (len(corr_badm), corr_badm[:1]))
         c = common.driver_batch(["bonds consts"])[0].split()
         ctx.oblige("correspondence: model max_sq_distance and h_dist_squared = the BondMaker instance's", c[0] == c[1] and c[2] == c[3], str(c))
